@@ -883,7 +883,11 @@ def process_fn_block(head, lines, meta, stub=False):
             elif kw in ('after', 'before'):
                 # one or more alternative anchors: "text" [#k] | "other text" [#k]  (first one found wins)
                 alts = []
-                for part in re.split(r'\s+\|\s+(?=(?:arm:)?")', arg):
+                for part in re.split(r'\s+\|\s+(?=(?:arm:)?"|fntail\b)', arg):
+                    if part.strip() == 'fntail':
+                        # the tail expression of the function body (its last line, if that is an expression and not a statement)
+                        alts.append(('@fntail', 1))
+                        continue
                     m = re.match(r'(arm:)?"((?:[^"\\]|\\.)*)"\s*(#(\d+))?$', part.strip())
                     if not m:
                         raise ExtractError('bad anchor: ' + arg)
@@ -1007,6 +1011,16 @@ def process_fn_block(head, lines, meta, stub=False):
                 continue
             at = None
             for anc, kk in anchor:
+                if anc == '@fntail':
+                    last = max(i for i, l in enumerate(blines) if l.strip() == '}')
+                    t = last - 1
+                    while t > 0 and (blines[t].strip() == '' or blines[t].startswith('/*@inj*/')):
+                        t -= 1
+                    tl = blines[t].strip()
+                    if t > 0 and mode == 'before' and not (tl.endswith(';') or tl.endswith('}') or tl.endswith('{')):
+                        at = t
+                        break
+                    continue
                 if anc.startswith('@arm:'):
                     hits = arm_tail_lines(blines, anc[5:])
                     if len(hits) >= kk and mode == 'before':
